@@ -594,6 +594,9 @@ def can_tight(prev, cur):
         return False
     if cur[3].get('force'):
         return True
+    if prev[0] == 'comment' and cur[0] in ('name', 'num', 'kw', 'str', 'qname', 'type') and cur[0] != 'comment':
+        # a comment separates its neighbours: the word behind it may abut it even if it must not abut a word (a/*c*/from)
+        return True
     if not cur[2]:
         return False
     if prev[0] == 'comment':
